@@ -61,6 +61,9 @@ ASSUMPTIONS = [
     "both versions are loaded statically with the options griffe.check uses (resolve_aliases=True, resolve_external=None, allow_inspection=False)",
     "CLI clause: git 2.39 from PATH with GIT_CONFIG_GLOBAL/SYSTEM=/dev/null; check() is called in-process with cwd = repository",
     "names are unique per scope, member names never collide with sub-module names",
+    "attribute values are source texts from a fixed pool (constants, operators, containers, calls, names, attribute chains, "
+    "comprehension, lambda, subscript, conditional); a value change = two different pool texts, old and new drawn independently "
+    "(constant<->expression both ways, expression->expression, constant->constant); all 992 ordered pairs were checked to be reported on the unchanged tree",
     "an empty __all__ is a declared __all__ (docs + is_public docstring, /repo 7432fdb): every non-module member below it is private "
     "under both readings; edits to them are unobservable and no breakage may name them; names are never added to an empty __all__",
     "wildcard imports are generated only in modules that declare __all__ (publicness of the provided names = listed or not; without "
